@@ -1,4 +1,4 @@
-// Package xc02 holds the harness-side peers of the C02 check: an independent minimal bolt v1
+// Package xc02 holds the harness-side peers of the C02 check: an independent minimal bolt v1 / v2
 // codec (so the judge of request/response correlation does not share code with the proxy under
 // test), a scripted bolt upstream and a raw multiplexing bolt client.
 package xc02
@@ -10,8 +10,10 @@ import (
 	"io"
 )
 
-// Frame is one bolt v1 frame.
+// Frame is one bolt frame: v1, or v2 (protocol code 2: a protocol version byte after the code and a
+// switch byte after the codec byte, everything else as in v1; no CRC, which needs version byte 2).
 type Frame struct {
+	V2      bool
 	Type    byte   // 0 response, 1 request, 2 oneway
 	Cmd     uint16 // 0 heartbeat, 1 rpc request, 2 rpc response
 	ID      uint32
@@ -76,6 +78,7 @@ func decHeader(b []byte) ([][2]string, error) {
 // Encode serialises f.
 func (f *Frame) Encode() []byte {
 	hb := encHeader(f.Header)
+	// v1 layout first; the two v2 bytes are spliced in afterwards
 	var b []byte
 	if f.Type == 0 {
 		b = make([]byte, 20)
@@ -99,22 +102,52 @@ func (f *Frame) Encode() []byte {
 	binary.BigEndian.PutUint16(b[o:], uint16(len(f.Class)))
 	binary.BigEndian.PutUint16(b[o+2:], uint16(len(hb)))
 	binary.BigEndian.PutUint32(b[o+4:], uint32(len(f.Content)))
+	if f.V2 {
+		v := make([]byte, 0, len(b)+2)
+		v = append(v, 2, 1)       // protocol code 2, protocol version 1
+		v = append(v, b[1:10]...) // type, cmd code, command version, id, codec
+		v = append(v, 0)          // switch: no CRC
+		v = append(v, b[10:]...)
+		b = v
+	}
 	b = append(b, f.Class...)
 	b = append(b, hb...)
 	b = append(b, f.Content...)
 	return b
 }
 
-// ReadFrame reads one complete frame.
+// ReadFrame reads one complete frame (v1 or v2, told apart by the protocol code).
 func ReadFrame(r *bufio.Reader) (*Frame, error) {
-	head := make([]byte, 20)
-	if _, err := io.ReadFull(r, head); err != nil {
+	code, err := r.ReadByte()
+	if err != nil {
 		return nil, err
 	}
-	if head[0] != 1 {
-		return nil, fmt.Errorf("not bolt v1: protocol code %d", head[0])
+	v2 := false
+	switch code {
+	case 1:
+	case 2:
+		v2 = true
+		if _, err := r.ReadByte(); err != nil { // protocol version
+			return nil, err
+		}
+	default:
+		return nil, fmt.Errorf("not bolt: protocol code %d", code)
 	}
-	f := &Frame{Type: head[1], Cmd: binary.BigEndian.Uint16(head[2:]), ID: binary.BigEndian.Uint32(head[5:])}
+	// from here on the v1 layout, head[0] being the code; v2 has one more byte (switch) after the codec byte
+	head := make([]byte, 20)
+	head[0] = 1
+	if _, err := io.ReadFull(r, head[1:10]); err != nil {
+		return nil, err
+	}
+	if v2 {
+		if _, err := r.ReadByte(); err != nil {
+			return nil, err
+		}
+	}
+	if _, err := io.ReadFull(r, head[10:]); err != nil {
+		return nil, err
+	}
+	f := &Frame{V2: v2, Type: head[1], Cmd: binary.BigEndian.Uint16(head[2:]), ID: binary.BigEndian.Uint32(head[5:])}
 	o := 12
 	if f.Type != 0 {
 		more := make([]byte, 2)
